@@ -439,3 +439,134 @@ class MProcessSumTp(WithAtol):
             cl.append(true(f"verdict[{k}]/small-viol-implies-true",
                            S.Implies(S.And(*[S.abs(v) * rd <= atol for v in viol]), out[k]), "viol <= atol/sqrt(d) => True"))
         return cl
+
+
+class MProcessCp(WithAtol):
+    """MProcess.is_cp / is_ineq_constraint_satisfied: every element's Choi matrix is PSD within atol - every element of the (possibly
+    multi-index) outcome shape, not a leading part of them"""
+    name = "MProcess.is_cp"
+    targets = (MP + ":MProcess.is_cp", MP + ":MProcess.is_ineq_constraint_satisfied", GT + ":is_cp")
+
+    def configs(self, tier):
+        return [("1q", 2), ("1q", (2, 2))] + ([("1q", 3), ("1q", (3, 2))] if tier == "thorough" else [])
+
+    def inputs(self, W, cfg, mk):
+        m = cfg[1]
+        shape = tuple(m) if isinstance(m, tuple) else None
+        count = m[0] * m[1] if shape else m
+        mp = obj_mprocess(W, mk, make_csys(W, cfg[0]), count, shape=shape)
+        if shape:
+            # multi-index shapes: the leading shape[0] elements are fixed completely positive maps (multiples of the identity channel), the
+            # remaining ones symbolic - the path count of four fully symbolic elements is out of budget
+            n = mp.hss[0].shape[0]
+            for x in range(shape[0]):
+                mp.hss[x][:, :] = W.np.eye(n) / (4 * (x + 1))
+        return dict(mp=mp, atol=atol_input(mk))
+
+    def run(self, W, cfg, inp):
+        return [inp["mp"].is_cp(inp["atol"]), inp["mp"].is_ineq_constraint_satisfied(inp["atol"])]
+
+    def post(self, W, cfg, inp, out):
+        S = W.S
+        mp = inp["mp"]
+        spec = S.And(*[spec_psd(S, S.choi_from_hs(mp.composite_system, h), inp["atol"]) for h in mp.hss])
+        return [eq("verdict/is_cp", out[0], spec, "is_cp(atol) <=> the Choi matrix of EVERY element is PSD within atol"),
+                eq("verdict/is_ineq_constraint_satisfied", out[1], spec, "<=> the same")]
+
+    def canary(self, W, cfg, inp, out):
+        S = W.S
+        mp = inp["mp"]
+        spec = S.And(*[spec_psd(S, S.choi_from_hs(mp.composite_system, h), inp["atol"]) for h in mp.hss])
+        return [eq("canary", out[0], S.Not(spec), "(false) the verdict is the negation of the definition")]
+
+
+def _build_kind(W, mk, kind, c_sys, m, **kw):
+    if kind == "povm":
+        return obj_povm(W, mk, c_sys, m, **kw)
+    if kind == "gate":
+        return obj_gate(W, mk, c_sys, **kw)
+    shape = tuple(m) if isinstance(m, tuple) else None
+    return obj_mprocess(W, mk, c_sys, m[0] * m[1] if shape else m, shape=shape, **kw)
+
+
+class TypePhysical(WithAtol):
+    """is_physical(a, b) of Povm / Gate / MProcess routes a to the type's equality verdict and b to its inequality verdict (the verdicts
+    themselves are the obligations of the per-verdict contracts above)"""
+    name = "Povm/Gate/MProcess.is_physical"
+    targets = ("quara.objects.qoperation:QOperation.is_physical", PV + ":Povm.is_eq_constraint_satisfied", PV + ":Povm.is_ineq_constraint_satisfied",
+               GT + ":Gate.is_eq_constraint_satisfied", GT + ":Gate.is_ineq_constraint_satisfied",
+               MP + ":MProcess.is_eq_constraint_satisfied", MP + ":MProcess.is_ineq_constraint_satisfied")
+
+    def configs(self, tier):
+        return [("1q", "povm", 2), ("1q", "gate", 0), ("1q", "mprocess", 2)] + ([("1q", "povm", 3), ("1q", "mprocess", (2, 2))] if tier == "thorough" else [])
+
+    def inputs(self, W, cfg, mk):
+        a = atol_input(mk)
+        b = mk.real("btol")
+        mk.require(b >= 1e-13)
+        mk.require(b <= 1e-2)
+        return dict(obj=_build_kind(W, mk, cfg[1], make_csys(W, cfg[0]), cfg[2]), atol=a, btol=b)
+
+    def sample(self, cfg, names, rng):
+        v = sample_with_atol(cfg, names, rng)
+        v["btol"] = 10 ** rng.uniform(-13, -2)
+        return v
+
+    def run(self, W, cfg, inp):
+        o = inp["obj"]
+        return dict(phys=o.is_physical(inp["atol"], inp["btol"]), eq=o.is_eq_constraint_satisfied(inp["atol"]), ineq=o.is_ineq_constraint_satisfied(inp["btol"]))
+
+    def post(self, W, cfg, inp, out):
+        S = W.S
+        return [eq("verdict", out["phys"], S.And(out["eq"], out["ineq"]),
+                   "is_physical(a, b) <=> is_eq_constraint_satisfied(a) and is_ineq_constraint_satisfied(b)")]
+
+    def canary(self, W, cfg, inp, out):
+        S = W.S
+        return [eq("canary", out["phys"], S.Not(S.And(out["eq"], out["ineq"])), "(false) the verdict is the negation of the conjunction")]
+
+
+class TypeConstructor(WithAtol):
+    """constructing a Povm / Gate / MProcess with physicality required raises ValueError exactly when the same arrays are not physical at the
+    global atol"""
+    name = "Povm/Gate/MProcess.__init__"
+    targets = (PV + ":Povm.__init__", GT + ":Gate.__init__", MP + ":MProcess.__init__")
+    frame = False
+    may_raise = True
+
+    def configs(self, tier):
+        return [("1q", "povm", 2), ("1q", "gate", 0), ("1q", "mprocess", 2)] + ([("1q", "mprocess", (2, 2))] if tier == "thorough" else [])
+
+    def inputs(self, W, cfg, mk):
+        return dict(c_sys=make_csys(W, cfg[0]), free=_build_kind(W, mk, cfg[1], make_csys(W, cfg[0]), cfg[2]))
+
+    def sample(self, cfg, names, rng):
+        return sample_with_atol(cfg, names, rng)
+
+    def run(self, W, cfg, inp):
+        o = inp["free"]
+        kind, m = cfg[1], cfg[2]
+        kw = dict(is_physicality_required=True)
+        if kind == "povm":
+            W.mod(PV).Povm(inp["c_sys"], [W.np.copy(v) for v in o.vecs], **kw)
+        elif kind == "gate":
+            W.mod(GT).Gate(inp["c_sys"], W.np.copy(o.hs), **kw)
+        else:
+            W.mod(MP).MProcess(inp["c_sys"], [W.np.copy(h) for h in o.hss], shape=tuple(m) if isinstance(m, tuple) else None, **kw)
+        return "constructed"
+
+    def post(self, W, cfg, inp, out):
+        S = W.S
+        phys = inp["free"].is_physical()
+        if isinstance(out, Raised):
+            return [true("raises-iff-not-physical", S.And(out.name == "ValueError", S.Not(phys)),
+                         "constructor raises ValueError => the arrays are not physical at the global atol")]
+        return [true("raises-iff-not-physical", phys, "constructor succeeds => the arrays are physical at the global atol")]
+
+
+from .C18_all import Verdicts as _ELVerdicts
+
+
+class EffectiveLindbladianVerdicts(_ELVerdicts):
+    """the physicality predicates of EffectiveLindbladian (a Gate subclass): C18's verdict contract, re-checked under C01"""
+    prop = "C01"
